@@ -298,6 +298,20 @@ func (e *Engine) checkAssert(st *State, c ssa.CallInstruction, cond *Term, label
 		return
 	}
 	res, model := e.modelFor(st, e.TT.Not(cond))
+	if e.CrossEvery > 0 && res != Unknown {
+		e.crossCount++
+		if e.crossCount%e.CrossEvery == 0 {
+			// deterministic sample of assertion queries re-decided by a second solver on the identical text
+			script := DumpQuery(e.TT, st.pc, []*Term{e.TT.Not(cond)})
+			r2, _ := RunStandalone(e.CrossSolver, script, 60000)
+			e.CrossChecked++
+			if r2 != Unknown && r2 != res {
+				e.addEvent(Event{Kind: "unknown", Label: "solver disagreement on " + label, Pos: e.posOf(st, c.Pos()), Detail: fmt.Sprintf("z3 says %v, %s says %v", res, e.CrossSolver, r2)})
+			} else if r2 == Unknown {
+				e.CrossUnknown++
+			}
+		}
+	}
 	switch res {
 	case Unsat:
 		e.Stats.AssertUnsat++
